@@ -61,6 +61,8 @@ func (e *LEnt) name() string {
 		return fmt.Sprintf("m%d", e.ID)
 	case "ivar":
 		return fmt.Sprintf("I%d", e.ID)
+	case "zvar":
+		return fmt.Sprintf("Z%d", e.ID)
 	}
 	return fmt.Sprintf("F%d", e.ID)
 }
@@ -78,7 +80,17 @@ func (w *LiveWorld) EntLine(e *LEnt, v int) string {
 	t := tag(v, e.ID)
 	trailer := fmt.Sprintf(" //@%dv%d", e.ID, v)
 	if e.Kind == "ivar" {
+		if e.Tmpl%2 == 1 {
+			return fmt.Sprintf("var %s int = %d%s", e.name(), t, trailer) // typed declaration with initialiser
+		}
 		return fmt.Sprintf("var %s = %d%s", e.name(), t, trailer)
+	}
+	if e.Kind == "zvar" {
+		// initialised to zero in every version: a reload must bring it back to 0
+		if e.Tmpl%2 == 1 {
+			return fmt.Sprintf("var %s = 0%s", e.name(), trailer)
+		}
+		return fmt.Sprintf("var %s int = 0%s", e.name(), trailer)
 	}
 	var body string
 	dep := ""
@@ -161,6 +173,7 @@ func (w *LiveWorld) Infra(pkg int) string {
 	}
 	ln("type Holder struct { F func() int }")
 	ln("var S int")
+	ln("var SA any")
 	ln("var N int")
 	for _, id := range w.FV {
 		ln("var FV%d func() int", id)
@@ -189,7 +202,15 @@ func (w *LiveWorld) Infra(pkg int) string {
 		ln("\tif P%d != nil { BM%d = P%d.%s }", e.Recv, id, e.Recv, e.name())
 	}
 	ln("}")
-	ln("func bump() { S = S + 1 }")
+	ln("func bump() {")
+	ln("\tS = S + 1")
+	ln("\tSA = S")
+	for i := range w.Ents {
+		if e := &w.Ents[i]; e.Kind == "zvar" {
+			ln("\t%s = %s + 1", w.ref(e, 0), w.ref(e, 0))
+		}
+	}
+	ln("}")
 	ln("func probe() {")
 	ln("\thost.Obs(\"begin\", 0, 0)")
 	for i := range w.Ents {
@@ -199,6 +220,8 @@ func (w *LiveWorld) Infra(pkg int) string {
 			ln("\thost.Obs(\"d\", %d, %s())", e.ID, w.ref(e, 0))
 		case "ivar":
 			ln("\thost.Obs(\"iv\", %d, %s)", e.ID, w.ref(e, 0))
+		case "zvar":
+			ln("\thost.Obs(\"zv\", %d, %s)", e.ID, w.ref(e, 0))
 		case "method":
 			ln("\tif P%d != nil { host.Obs(\"im\", %d, P%d.%s()) }", e.Recv, e.ID, e.Recv, e.name())
 		}
@@ -216,6 +239,7 @@ func (w *LiveWorld) Infra(pkg int) string {
 		ln("\tif P%d != nil { host.Obs(\"fa\", %d, P%d.A) }", t, t, t)
 	}
 	ln("\thost.Obs(\"st\", 0, S)")
+	ln("\thost.Obs(\"sa\", 0, SA)")
 	ln("\thost.Obs(\"n\", 0, N)")
 	for p := 1; p < len(w.Pkgs); p++ {
 		ln("\thost.Obs(\"n\", %d, %s.N)", p, w.pkgAlias(p))
@@ -303,8 +327,12 @@ func GenLiveWorld(r *core.PRNG) *LiveWorld {
 		}
 		if r.Bool() {
 			id++
-			w.Ents = append(w.Ents, LEnt{ID: id, Kind: "ivar", Pkg: p, File: r.Intn(w.Pkgs[p].NFiles)})
+			w.Ents = append(w.Ents, LEnt{ID: id, Kind: "ivar", Pkg: p, File: r.Intn(w.Pkgs[p].NFiles), Tmpl: r.Intn(4)})
 		}
+	}
+	if r.Bool() {
+		id++
+		w.Ents = append(w.Ents, LEnt{ID: id, Kind: "zvar", Pkg: 0, File: r.Intn(w.Pkgs[0].NFiles), Tmpl: r.Intn(4)})
 	}
 	for t := 1; t <= w.Types; t++ {
 		nm := 1 + r.Intn(3)
